@@ -275,6 +275,7 @@ class Batch:
         self.mod, self.tier, self.seed = mod, tier, seed
         self.t0 = time.monotonic()
         self.n = 0
+        self.cases = 0
         self.harness_errors = []
         self.violations = []          # (index, case, outcome)
         self.faults = collections.Counter()
@@ -289,7 +290,8 @@ class Batch:
         self.extra = collections.Counter()
 
     def add(self, i, case, out):
-        self.n += 1
+        self.n += out.get("evals", 1) if not out.get("harness_error") else 1
+        self.cases += 1
         if out.get("harness_error"):
             self.harness_errors.append((i, out["harness_error"]))
             return
@@ -303,6 +305,10 @@ class Batch:
         if sh is not None:
             self.shapes.add(sh)
             if out.get("nontrivial"):
+                self.shapes_nontrivial.add(sh)
+        for sh, nt in out.get("shapes", ()):      # checks that evaluate several cases per run
+            self.shapes.add(sh)
+            if nt:
                 self.shapes_nontrivial.add(sh)
         self.digests.update(("%s:%s;" % (i, out.get("digest"))).encode())
         self.steps += out.get("steps", 0); self.switches += out.get("switches", 0)
@@ -423,6 +429,7 @@ def write_evidence(b, nviol, nknown, extra_cov=None):
         "rule": mod.RULE,
         "samples": b.samples or [{"note": "no non-trivial sample recorded"}],
         "distinct_interleavings_or_states": len(b.shapes),
+        "runs": b.cases,
         "runs_per_hour": int(b.n / max(b.wall, 1e-9) * 3600),
         "simulated_seconds": round(b.sim_time, 3),
         "scheduler_steps": b.steps,
